@@ -361,7 +361,39 @@ func runC09(l *core.Ledger) {
 	c09W6(l, r)
 	c09W7(l, r, roots)
 	c09W9(l, r)
+	l.Rule("C09-W14", "only a registration creates a router (C05-M2 re-run): a router written back by anything else - a bookkeeping update of an entry that has been removed meanwhile - has no channel, and the delivery of the next reply with that id parks the node's reader on a nil channel under the router lock for ever")
+	if rm := buildRouterModel(l, r, "C09-W14"); rm != nil {
+		l.With(map[string]string{"C05-M2": "C09-W14"}, func() { c05M2(l, r, rm) })
+	}
+	l.Rule("C09-W15", "a server keeps reading a connection whose handlers return or release (C04-H1, C03-F4/F5 re-run): the next receive waits only for the per-connection mutex, which the started handler - started at once, on a goroutine of its own - releases")
+	{
+		var sl *serverLoop
+		l.With(map[string]string{}, func() { sl = findServerLoop(l, r, "C03-F4") })
+		if sl != nil {
+			l.With(map[string]string{"C04-H1": "C09-W15", "C03-F5": "C09-W15"}, func() { c03F4(l, sl, "C04-H1"); c03F5(l, sl) })
+		}
+	}
 
+	c09W5(l, r)
+}
+
+// c09W5: lock order over all mutexes of the runtime.
+func c09W5(l *core.Ledger, r *rt) {
+	ops, _ := opsUnderLocks(allFuncs(l.Prog, r.pkg))
+	edges := map[string]map[string]string{} // lock order: held -> acquired -> witness
+	for _, ho := range ops {
+		for _, h := range ho.held {
+			if ho.op.kind == "lock" {
+				a, b, w := lockName(h, ho.holder), lockNameOp(ho.op), ho.via+" @ "+l.Prog.Pos(sx.PosOf(ho.op.at))
+				if edges[a] == nil {
+					edges[a] = map[string]string{}
+				}
+				if _, ok := edges[a][b]; !ok {
+					edges[a][b] = w
+				}
+			}
+		}
+	}
 	// W5 lock order
 	var names []string
 	for a := range edges {
@@ -949,7 +981,15 @@ func c09W9(l *core.Ledger, r *rt) {
 								held = true
 							}
 						}
-						inWatcher := u.Parent().Parent() != nil
+						// the per-write watcher: a function literal of the function that writes to the stream
+						inWatcher := false
+						if u.Parent().Parent() != nil {
+							root := u.Parent()
+							for root.Parent() != nil {
+								root = root.Parent()
+							}
+							inWatcher = isSendMsgLike(root)
+						}
 						l.Check(held || inWatcher, "C09-W9", key, u.Pos(), "called while the stream is being replaced / by the per-write watcher", "the stream is cancelled outside the stream replacement and outside the per-write watcher")
 						if inWatcher && !held {
 							c09W10(l, r, u)
